@@ -221,6 +221,7 @@ func c20LiveDefine(st *c20State, x, y interface{}) {
 	tm.SetMapIndex(reflect.ValueOf("p"), xv)
 	tm.SetMapIndex(reflect.ValueOf("o"), yv)
 	e.Define("ltm", tm.Interface())
+	e.DefineReflectType("LT", t)
 	// Go callees whose first / variadic parameter has the operand's own type T
 	str := reflect.TypeOf("")
 	e.Define("gt2", reflect.MakeFunc(reflect.FuncOf([]reflect.Type{t, c20IfaceType}, []reflect.Type{str}, false), func(in []reflect.Value) []reflect.Value {
@@ -245,6 +246,7 @@ type c20LSite struct {
 	noMutate func(k *c20LKind) bool
 	pending  bool
 	pendingK func(k *c20LKind) bool // kinds awaiting a repair of /repo
+	mutOn    string                 // round 6: the kind's in-place store is made THROUGH this expression ($A the operand); no other store
 }
 
 func c20LiveSites() []c20LSite {
@@ -349,6 +351,21 @@ func c20LiveSites() []c20LSite {
 		c20LSite{id: "bind-defer-arg", src: "func(){\ndefer glog($A)\n$S\n}()\nr = 0"},
 		c20LSite{id: "bind-commaok-let", src: "b$C = $A\n$S\nr = b", commaok: true},
 		c20LSite{id: "bind-commaok-module", pre: "module BM { b = 0 }", src: "BM.b$C = $A\n$S\nr = BM.b", commaok: true},
+
+		// --- round 6 (the classes of /tmp/seed6-C20/preexisting.md that lie inside the statement)
+		// the key of a TYPED map literal is an operand like the key of an untyped one (LT = the operand's type)
+		c20LSite{id: "lit-tmap-key", src: "r = map[LT]interface{$A: $G}", ok: func(k *c20LKind) bool { return k.hashable }},
+		// the index operand of the CONTAINER of a nested assignment target (the store appends, so the
+		// new inner list has to be put back where the index operand said when it was evaluated)
+		c20LSite{id: "target-index-nested", pre: "tg2 = [[], [], [], [], [], [], [], [], []]", src: "tg2[$A][$G] = \"v\"\nr = tg2", ok: func(k *c20LKind) bool { return k.name == "int" }},
+		c20LSite{id: "target-index-nested-map", pre: "tg3 = {}", src: "tg3[$A][$G] = \"v\"\nr = tg3", ret: lit(`"k"`), ok: func(k *c20LKind) bool { return k.hashable && k.class != "arr" && k.class != "struct" }},
+		// the value of `target, ok = place` is read before the operands of the target are evaluated
+		c20LSite{id: "commaok-target-operand", src: "tgt = [0, 0]\ntgt[$G]$C = $A\nr = tgt", commaok: true},
+		// an in-place store made THROUGH the result of a function whose body reads the place: the result
+		// is a value (the store succeeds or fails, and leaves the place alone, as with id(place) inside)
+		c20LSite{id: "store-through-result", mutOn: "func(){ return $A }()"},
+		c20LSite{id: "store-through-implicit-result", mutOn: "func(){ $A }()"},
+		c20LSite{id: "store-through-param-result", mutOn: "func(p){ return p }($A)"},
 	)
 	return ss
 }
@@ -563,6 +580,10 @@ func c20RunLive(c *wk.Case) {
 	case site.ok != nil && !site.ok(kind):
 		c.Excluded("site-about-other-kinds")
 		return
+	case site.mutOn != "" && (store != "replace" || kind.mutate == ""):
+		// the site's only store is the kind's in-place store, made through the operand expression
+		c.Excluded("store-through-site:one-store-form")
+		return
 	case store == "mutate" && kind.mutate == "":
 		c.Excluded("kind-without-in-place-store")
 		return
@@ -610,7 +631,11 @@ func c20RunLive(c *wk.Case) {
 			}
 			parts = append(parts, pl.pre...)
 			parts = append(parts, "func g(){\n"+st+"\nreturn "+ret+"\n}")
-			body := strings.ReplaceAll(site.src, "$A", operand)
+			src := site.src
+			if site.mutOn != "" {
+				src = strings.ReplaceAll(kind.mutate, "$P", site.mutOn) + "\nr = 0"
+			}
+			body := strings.ReplaceAll(src, "$A", operand)
 			body = strings.ReplaceAll(body, "$G", "g()")
 			body = strings.ReplaceAll(body, "$S", st)
 			if commaok {
